@@ -3,6 +3,17 @@ from pyvc.dsl import contract
 
 YP = "yamlpath.yamlpath.YAMLPath."
 
+# Facts about parsed segments that callers of the parser rely on (`path` = the YAMLPath, `index` = position,
+# `elem` = (type, attributes)).  They are ASSUMED wherever a segment is read and validated natively on every
+# run by rtc/c08 + rtc/c14 over the exhaustive string space (see DESIGN §6 C15).
+SEG_CLAUSES = [
+    "elem[0] is seg_type(path, index)",        # the escaped and the unescaped parse agree on every segment's type
+    "implies(elem[0] is PathSegmentTypes.ANCHOR, isinstance(elem[1], str))",
+    "implies(elem[0] is PathSegmentTypes.SEARCH, isinstance(elem[1], SearchTerms))",
+    "implies(elem[0] is PathSegmentTypes.KEYWORD_SEARCH, isinstance(elem[1], SearchKeywordTerms))",
+    "implies(elem[0] is PathSegmentTypes.COLLECTOR, isinstance(elem[1], CollectorTerms))",
+]
+
 
 @contract(YP + "_parse_path", props=["C14"])
 class ParsePath:
@@ -11,7 +22,8 @@ class ParsePath:
     params = {"strip_escapes": "bool"}
     assume_fields = {"self._original": "str", "self._separator": "PathSeparators"}
     raises = ["YAMLPathException"]
-    opts = {"returns": "Deque[Tuple[PathSegmentTypes, Any]]"}
+    # callers see: a deque of seg_count(self) segments (the same count for the escaped and the unescaped parse)
+    opts = {"returns": "Deque[Tuple[PathSegmentTypes, Any]]", "len_fn": "seg_count", "result_elem_inv": SEG_CLAUSES}
     loops = {
         "for char_idx, char in enumerate(yaml_path)": {
             # the only fact the safety of the stack operations needs across iterations:
@@ -88,17 +100,20 @@ class Stringify:
 
 @contract(YP + "ensure_escaped", props=["C14", "C08"])
 class EnsureEscaped:
-    """Total on str arguments, returns a str."""
-    params = {"value": "str", "*": "str"}
+    """Total for any value (it is stringified) and str symbols; a str stays a str."""
+    params = {"*": "str"}
     raises = []
-    opts = {"varargs": "abstract", "returns": "str"}
+    opts = {"varargs": "abstract"}
+    loops = {"for symbol in symbols": {"invariant": ["implies(isinstance(value, str), isinstance(escaped, str))"]}}
+    ensures = ["implies(isinstance(value, str), isinstance(result, str))"]
 
 
 @contract(YP + "escape_path_section", props=["C14", "C08"])
 class EscapePathSection:
-    params = {"section": "str", "pathsep": "PathSeparators"}
+    """Total for any section value (keys of any scalar type are stringified); a str stays a str."""
+    params = {"pathsep": "PathSeparators"}
     raises = []
-    opts = {"returns": "str"}
+    ensures = ["implies(isinstance(section, str), isinstance(result, str))"]
 
 
 @contract("yamlpath.enums.pathseparators.PathSeparators.infer_separator", props=["C14", "C08"])
@@ -155,5 +170,5 @@ class CollectorTermsStr:
 @contract(YP + "__init__", props=["C14"])
 class Init:
     """Constructing a path from any text (or None) never raises: parsing is lazy."""
-    params = {"yaml_path": "Optional[str]", "pathsep": "PathSeparators"}
+    params = {"yaml_path": "Union[YAMLPath, str, None]", "pathsep": "PathSeparators"}
     raises = []
